@@ -442,6 +442,8 @@ def check_property(prop, tier, seed, replay=None):
     os.makedirs(work, exist_ok=True)
     replay_dir = os.path.join(BUILD, "replays")
     os.makedirs(replay_dir, exist_ok=True)
+    for old in glob.glob(os.path.join(replay_dir, prop + "-*.json")):
+        os.remove(old)
 
     violations = []   # (replay_path, suffix)
     notes = []
